@@ -1,4 +1,5 @@
 import TaskModel.Load.MergeInvariant
+import TaskModel.Load.ReaderLemmas
 import TaskModel.Load.RootRef
 import TaskModel.Load.PathLemmas
 import TaskModel.Load.VarsLemmas
@@ -374,6 +375,60 @@ theorem C08_no_overwrite_graph (g : Graph) (σ : List Nat) (ε : Edge → List I
     (h : g.merge σ ε = .ok tf) (hn : Store.AllNodup g.verts) : tf.tasks.names.Nodup :=
   merge_nodup g σ ε tf h hn
 
+/-- **never a silent overwrite, for every load** (no hypothesis on the files): the keys of
+a loaded Taskfile are pairwise distinct.  The hypothesis `Store.AllNodup` of the graph-level
+theorem is what the decoder guarantees of every file it accepts (`readGraph_allNodup`:
+a key used twice in `tasks:` is a decode error since the duplicate-key fix). -/
+theorem C08_no_overwrite_load (fm : FileMap) (root : Nat) (tf : Taskfile) (h : load fm root = .ok tf) :
+    tf.tasks.names.Nodup := by
+  simp only [load] at h
+  split at h
+  · rename_i g hg
+    simp only [Graph.mergeCanonical] at h
+    split at h
+    · exact C08_no_overwrite_graph _ _ _ tf h (readGraph_allNodup fm root g hg)
+    · cases h
+  · cases h
+
+/-- … and every file that took part in a successful load has no key used twice, in
+`tasks:`, `includes:`, `vars:`, `env:`, task `vars:` and include `vars:` -/
+theorem C08_loaded_files_well_keyed (fm : FileMap) (root : Nat) (tf : Taskfile) (h : load fm root = .ok tf) :
+    ∃ g, readGraph fm root = .ok g ∧ ∀ p ∈ g.verts, p.2.wellKeyed = true := by
+  simp only [load] at h
+  split at h
+  · rename_i g hg
+    exact ⟨g, hg, readGraph_wellKeyed fm root g hg⟩
+  · cases h
+
+/-- **duplicate key ⇒ decode error**: a file with a key used twice is refused as soon as it
+is read (before its version is looked at, before any of its includes is followed) -/
+theorem C08_duplicate_key (fm : FileMap) (fuel : Nat) (stack : List Nat) (f : Nat) (g : Graph) (tf : Taskfile)
+    (hf : Store.get f fm = some tf) (hd : tf.wellKeyed = false) :
+    visit fm (fuel + 1) stack f g = .error .decode :=
+  visit_duplicate_key fm fuel stack f g tf hf hd
+
+/-- … in particular a root Taskfile with a duplicate key never loads -/
+theorem C08_duplicate_key_root (fm : FileMap) (root : Nat) (tf : Taskfile)
+    (hf : Store.get root fm = some tf) (hd : tf.wellKeyed = false) : load fm root = .error .decode := by
+  simp [load, readGraph, visit_duplicate_key fm _ [] root ⟨[], []⟩ tf hf hd]
+
+/-- **tie, regenerated half** of the duplicate-key rule: the mappings `taskfile/ast` decodes
+by walking the YAML node by hand are exactly these four; the three that carry tasks,
+includes and variables (`vars:` and `env:` at every level are `Vars`) refuse a repeated key
+before they `Set` it; `duplicateKeyError` compares the key with every EARLIER key of the same
+mapping (kind and value, as yaml.v3 does) and returns a `TaskfileDecodeError`.  (`Matrix`
+— the rows of `for: matrix:` — still keeps the last of two equal keys; it carries no
+task, include or variable of the loader and is listed so that a fifth hand-decoded mapping
+cannot appear unnoticed.) -/
+theorem duplicate_key_rule_in_source :
+    Load.handDecodedMappings =
+      [("Includes.UnmarshalYAML", "dupcheck-before-set"), ("Matrix.UnmarshalYAML", "no-dupcheck"),
+       ("Tasks.UnmarshalYAML", "dupcheck-before-set"), ("Vars.UnmarshalYAML", "dupcheck-before-set")]
+    ∧ Load.duplicateKeyCheck =
+      ["‹0› := ‹p:*yaml.Node›.Content[‹p:int›]", "for ‹1› := 0; ‹1› < ‹p:int›; ‹1› += 2",
+       "‹2› := ‹p:*yaml.Node›.Content[‹1›]", "if ‹2›.Kind == ‹0›.Kind && ‹2›.Value == ‹0›.Value",
+       "return errors.NewTaskfileDecodeError(…)", "return nil"] := by decide
+
 /-- the only error `Tasks.Merge` can produce is the conflict error -/
 theorem C08_tasks_error_is_conflict (t1 t2 : Table) (inc : Include) (itv : Vars) (e : Err)
     (h : mergeTasks t1 t2 inc itv = .error e) : e = .conflict := mergeTasks_error _ _ _ _ _ h
@@ -500,6 +555,12 @@ example : isErr .cycle (load [(0, tfile [] [decl [97] 0])] 0) = true := by decid
 example : isErr .missing (load [(0, tfile [] [decl [97] 7])] 0) = true := by decide
 example : isErr .version (load [(0, tfile [] [decl [97] 1]), (1, tfile [] [] 31)] 0) = true := by decide
 example : isErr .conflict (load [(0, tfile [tk [114] [] [] 0] [decl [97] 1 true]), (1, tfile [tk [114] [] [] 1] [])] 0) = true := by decide
+/-- duplicate keys: two tasks `r` in the root file; two includes `a` in an included file;
+a variable defined twice in an include statement — each a decode error (the unrepaired
+decoder kept the second of each silently) -/
+example : isErr .decode (load [(0, tfile [tk [114] [⟨[], 1⟩] [] 0, tk [114] [⟨[], 2⟩] [] 0] [])] 0) = true := by decide
+example : isErr .decode (load [(0, tfile [] [decl [97] 1]), (1, tfile [] [decl [97] 2, decl [97] 3]), (2, tfile [] []), (3, tfile [] [])] 0) = true := by decide
+example : isErr .decode (load [(0, tfile [] [{ decl [97] 1 with vars := [(1, ⟨1, Dir.unset⟩), (1, ⟨2, Dir.unset⟩)] }]), (1, tfile [] [])] 0) = true := by decide
 /-- a diamond (0 → 1, 0 → 2, 1 → 3, 2 → 3) loads, with the shared file under both paths -/
 example : keysOf (load [(0, tfile [] [decl [97] 1, decl [98] 2]), (1, tfile [] [decl [99] 3]), (2, tfile [] [decl [99] 3]),
     (3, tfile [tk [116] [] [] 3] [])] 0) = [[98, 58, 99, 58, 116], [97, 58, 99, 58, 116]] := by decide
